@@ -77,28 +77,28 @@ End C18.
 (* ------------------------------------------------------------------------------------------------------
    6. The hypotheses of 1 hold of goja's REAL key functions (coq/C18/HashModel.v: Value.SameAs per
       constructor pair, the negative-zero normalisation of map.go, the hash(hasher) methods; numbers are C05's
-      valueInt/valueFloat, strings C06's three representations).  maphash, the four package-level hash words and
-      the addresses of Symbols and Objects are arbitrary (section variables): nothing is assumed of them. *)
+      valueInt/valueFloat, strings C06's three representations).  maphash, the four package-level hash words,
+      the addresses of Symbols and Objects and the identity hash of wrapped Go values are arbitrary (section variables): nothing is assumed of them. *)
 Section C18_JS.
 Variables hashTrue hashFalse hashNull hashUndef : N.
 Variable mh : list N -> N.
-Variables ptr_sym ptr_obj : N -> N.
-Local Notation goja_hash := (goja_hash hashTrue hashFalse hashNull hashUndef mh ptr_sym ptr_obj).
-Local Notation wf_hash := (Hash.wf_hash hashTrue hashFalse hashNull hashUndef mh ptr_sym ptr_obj).
+Variables ptr_sym ptr_obj host_hash : N -> N.
+Local Notation goja_hash := (goja_hash hashTrue hashFalse hashNull hashUndef mh ptr_sym ptr_obj host_hash).
+Local Notation wf_hash := (Hash.wf_hash hashTrue hashFalse hashNull hashUndef mh ptr_sym ptr_obj host_hash).
 
 Theorem hash_respects_svz : forall a b, key_wf a = true -> key_wf b = true ->
   goja_same (goja_norm a) (goja_norm b) = true -> goja_hash (goja_norm a) = goja_hash (goja_norm b).
-Proof. exact (Hash.hash_respects_svz hashTrue hashFalse hashNull hashUndef mh ptr_sym ptr_obj). Qed.
+Proof. exact (Hash.hash_respects_svz hashTrue hashFalse hashNull hashUndef mh ptr_sym ptr_obj host_hash). Qed.
 
 (* without the normalisation too: SameAs alone forces equal hashes on well-formed keys *)
 Theorem hash_respects_same : forall a b, key_wf a = true -> key_wf b = true ->
   goja_same a b = true -> goja_hash a = goja_hash b.
-Proof. exact (Hash.hash_respects_same hashTrue hashFalse hashNull hashUndef mh ptr_sym ptr_obj). Qed.
+Proof. exact (Hash.hash_respects_same hashTrue hashFalse hashNull hashUndef mh ptr_sym ptr_obj host_hash). Qed.
 
 (* SameValueZero-equal keys hash alike even before normalisation (number case: C05 hash_respects_svz_num) *)
 Theorem hash_respects_svz_raw : forall a b, key_wf a = true -> key_wf b = true ->
   goja_same (goja_norm a) (goja_norm b) = true -> goja_hash a = goja_hash b.
-Proof. exact (Hash.hash_respects_svz_raw hashTrue hashFalse hashNull hashUndef mh ptr_sym ptr_obj). Qed.
+Proof. exact (Hash.hash_respects_svz_raw hashTrue hashFalse hashNull hashUndef mh ptr_sym ptr_obj host_hash). Qed.
 
 Example hash_respects_svz_nonvacuous :
   let a := VStr (M6.SImp [195; 169]%N false) in let b := VStr (M6.SUni [233]%N) in   (* "é" imported / unicode *)
@@ -115,15 +115,16 @@ Theorem hash_respects_refuted_noncanonical :
   goja_same (goja_norm a) (goja_norm b) = true /\
   goja_hash (goja_norm a) = 4607182418800017408%N /\ goja_hash (goja_norm b) = 1%N /\
   goja_hash (goja_norm a) <> goja_hash (goja_norm b).
-Proof. exact (Hash.hash_respects_refuted_noncanonical hashTrue hashFalse hashNull hashUndef mh ptr_sym ptr_obj). Qed.
+Proof. exact (Hash.hash_respects_refuted_noncanonical hashTrue hashFalse hashNull hashUndef mh ptr_sym ptr_obj host_hash). Qed.
 
-(* (b) STILL TRUE OF THE CODE (open finding C18-H1): two wrappers of one Go value are SameAs, their hashes are
-   their own addresses *)
-Theorem hash_respects_refuted_hostwrapper :
-  (forall i j, ptr_obj i = ptr_obj j -> i = j) ->
-  let a := VObj 1 (Some 7%N) in let b := VObj 2 (Some 7%N) in
-  goja_same (goja_norm a) (goja_norm b) = true /\ goja_hash (goja_norm a) <> goja_hash (goja_norm b).
-Proof. exact (Hash.hash_respects_refuted_hostwrapper hashTrue hashFalse hashNull hashUndef mh ptr_sym ptr_obj). Qed.
+(* (b) two wrappers of one Go value (and the template objects of one site) are SameAs through objectImpl.equal.
+   Their hash was the wrapper's address (finding C18-H1); since 813b109 it is the hashIdentity of what they wrap,
+   so key_wf no longer excludes them and 6 holds of them unconditionally.  Witness that they are covered: *)
+Theorem hostwrapper_same_hash :
+  let a := VObj 1 (Some 7%N) in let b := VObj 2 (Some 7%N) in let c := VObj 1 None in
+  key_wf a = true /\ key_wf b = true /\ a <> b /\ goja_same (goja_norm a) (goja_norm b) = true /\
+  goja_hash (goja_norm a) = goja_hash (goja_norm b) /\ goja_same a c = false.
+Proof. exact (Hash.hostwrapper_same_hash hashTrue hashFalse hashNull hashUndef mh ptr_sym ptr_obj host_hash). Qed.
 
 (* 7. what goja compares with IS ECMAScript SameValueZero on the values' denotations (numbers: mathematical
       value, C05 sameValueZero_sound; strings: UTF-16 units, C06 eq_hash_key_agree; the rest: identity) *)
@@ -142,13 +143,13 @@ Proof. exact Hash.norm_idem. Qed.
 Theorem om_refines_js : forall (V : Type) (ops : list (@op Hash.wfkey V)),
   snd (run (istep Hash.wf_same Hash.wf_norm wf_hash) iinit ops) =
   snd (run (sstep Hash.wf_same Hash.wf_norm) sinit ops).
-Proof. exact (Hash.om_refines_js hashTrue hashFalse hashNull hashUndef mh ptr_sym ptr_obj). Qed.
+Proof. exact (Hash.om_refines_js hashTrue hashFalse hashNull hashUndef mh ptr_sym ptr_obj host_hash). Qed.
 
 (* 8'. the same statement over plain JS values: every history whose keys are all well-formed (obtained from 8 by
        the renaming lemma of coq/C18/Transfer.v; no key of such a history is left out by the subset type) *)
 Theorem om_refines_js_raw : forall (V : Type) (ops : list (@op jsval V)), Forall Hash.op_wf ops ->
   snd (run (istep goja_same goja_norm goja_hash) iinit ops) = snd (run (sstep goja_same goja_norm) sinit ops).
-Proof. exact (Hash.om_refines_js_raw hashTrue hashFalse hashNull hashUndef mh ptr_sym ptr_obj). Qed.
+Proof. exact (Hash.om_refines_js_raw hashTrue hashFalse hashNull hashUndef mh ptr_sym ptr_obj host_hash). Qed.
 
 (* the three functions are literally goja's on the underlying value *)
 Theorem wfkey_functions : forall a b : Hash.wfkey,
@@ -156,7 +157,7 @@ Theorem wfkey_functions : forall a b : Hash.wfkey,
   proj1_sig (Hash.wf_norm a) = goja_norm (proj1_sig a) /\
   wf_hash a = goja_hash (proj1_sig a) /\
   svz Hash.wf_same Hash.wf_norm a b = svz_spec (proj1_sig a) (proj1_sig b).
-Proof. exact (Hash.wfkey_functions hashTrue hashFalse hashNull hashUndef mh ptr_sym ptr_obj). Qed.
+Proof. exact (Hash.wfkey_functions hashTrue hashFalse hashNull hashUndef mh ptr_sym ptr_obj host_hash). Qed.
 
 (* SameValueZero on well-formed keys is an equivalence: the premises of 5 hold at the JS values *)
 Theorem wf_same_equiv :
@@ -172,7 +173,7 @@ Theorem map_iteration_order_js : forall (V : Type) (ops : list (@op Hash.wfkey V
   let n := length (snd (fst (run (sstep Hash.wf_same Hash.wf_norm) sinit ops))) in
   skipn (length ops) (snd (run (istep Hash.wf_same Hash.wf_norm wf_hash) iinit (ops ++ ONewIter :: repeat (ONext n) k))) =
   RNat n :: map (fun kv => REntry (Some kv)) (firstn k (Hash.live d)) ++ repeat (REntry None) (k - length (Hash.live d)).
-Proof. exact (Hash.map_iteration_order_js hashTrue hashFalse hashNull hashUndef mh ptr_sym ptr_obj). Qed.
+Proof. exact (Hash.map_iteration_order_js hashTrue hashFalse hashNull hashUndef mh ptr_sym ptr_obj host_hash). Qed.
 
 (* 10. symtab_same_structure: baseObject.symValues is newOrderedMap(nil) keyed by Symbols: same = pointer
        equality, norm = identity, hash = the Symbol's address (the nil hasher is never touched).  It refines the
@@ -204,7 +205,7 @@ End C18_JS.
 (* non-vacuity of 8': -0 / +0 and an imported / a unicode "e-acute" are one key each; with a hash that collides on
    everything of equal length the chains are exercised *)
 Example om_refines_js_nonvacuous :
-  let h := goja_hash 1 2 3 4 (fun l => N.of_nat (length l)) (fun i => i) (fun i => i) in
+  let h := goja_hash 1 2 3 4 (fun l => N.of_nat (length l)) (fun i => i) (fun i => i) (fun i => i) in
   let ops := [OSet (VNum (M5.NFlt (F64.of_bits 9223372036854775808))) 1; OSet (VStr (M6.SImp [195; 169]%N false)) 2;
               OSet (VStr (M6.SUni [234]%N)) 3; OGet (VNum (M5.NInt 0)); OHas (VStr (M6.SUni [233]%N));
               ODel (VStr (M6.SUni [233]%N)); OGet (VStr (M6.SUni [234]%N)); OSize] in
@@ -224,7 +225,7 @@ Print Assumptions hash_respects_svz.
 Print Assumptions hash_respects_same.
 Print Assumptions hash_respects_svz_raw.
 Print Assumptions hash_respects_refuted_noncanonical.
-Print Assumptions hash_respects_refuted_hostwrapper.
+Print Assumptions hostwrapper_same_hash.
 Print Assumptions goja_same_is_svz.
 Print Assumptions om_refines_js.
 Print Assumptions om_refines_js_raw.
